@@ -27,7 +27,6 @@ theorem demoDiamond_plain : PlainP demoDiamond demoDag := by
     · cases h; exact ⟨rfl, rfl⟩
   · intro _ _; exact ⟨rfl, rfl⟩
   · intro _ _; rfl
-  · intro _ _; rfl
 
 /-- Boolean form of `OracleOK` -/
 def oracleOKb (P : Program) (s : St) : Choice → Bool
@@ -102,6 +101,10 @@ theorem liveRun_snoc {P : Program} : ∀ (cs : List Choice) (c : Choice) (s0 s' 
       · next s1 obs hs => exact liveRun_snoc cs c s1 s' (.step hl hc.1 (oracleOK_of_b hc.2) hs) hr
       · cases hr
     · cases hr
+
+theorem demoDiamond_noCollabFailure : ∀ e, ¬ CollabFails demoDiamond e := by
+  intro e ⟨cb, m, h⟩
+  cases h
 
 theorem idle_of_all {s : St} (h : s.tasks.all (fun tk => !isRunnable tk) = true) :
     ∀ (i : Nat) (tk : Task), s.tasks[i]? = some tk → isRunnable tk = false := by
